@@ -486,7 +486,7 @@ def finding_status(ctx):
 
 def run(ctx):
     build = leanbuild.ensure(PROPERTY, THEOREMS, thorough=ctx.thorough, extractors=[])
-    n = 24000 if ctx.thorough else 1800
+    n = 18000 if ctx.thorough else 1800
     cases, lines, spans = explore(ctx, n, corpus=[WITNESS_RELOAD, WITNESS_SELF] + load_corpus())
     if build.driver_ok:
         fill_model(cases, lines, spans)
